@@ -606,19 +606,57 @@ func worldRelease(w *World) {
 
 	// registrations that fail part-way release what they had already taken
 	if w.KnobBool("partial", 70) {
-		// (a) second domain conflicts
+		// (a) a later route of the registration conflicts (second custom domain, or the subdomain after the custom
+		// domain), for every vhost-routed proxy type; afterwards the first route must be free for anybody, and once
+		// the conflict is gone the identical registration must go through
 		o := env.newClient("o", 0)
 		o.login("")
-		if rr, got := o.register(M{"proxy_name": "blocker", "proxy_type": "http", "custom_domains": []string{"p2.example.test"}}); got && mstr(rr, "error") == "" {
-			rr, got := cur.register(M{"proxy_name": "pp", "proxy_type": "http", "custom_domains": []string{"p1.example.test", "p2.example.test"}})
+		ptyp := []string{"http", "http", "https", "tcpmux"}[w.Knob("partial.type", 0, 3)]
+		viaSub := w.KnobBool("partial.conflict_on_subdomain", 35)
+		mkp := func(name string, doms []string, sub string) M {
+			f := M{"proxy_name": name, "proxy_type": ptyp}
+			if len(doms) > 0 {
+				f["custom_domains"] = doms
+			}
+			if sub != "" {
+				f["subdomain"] = sub
+			}
+			if ptyp == "tcpmux" {
+				f["multiplexer"] = "httpconnect"
+			}
+			return f
+		}
+		blk, full := mkp("blocker", []string{"p2.example.test"}, ""), mkp("pp", []string{"p1.example.test", "p2.example.test"}, "")
+		if viaSub {
+			blk, full = mkp("blocker", nil, "p2"), mkp("pp", []string{"p1.example.test"}, "p2")
+		}
+		if rr, got := o.register(blk); got && mstr(rr, "error") == "" {
+			rr, got := cur.register(full)
 			w.Check("C10.partial-failure-releases")
 			w.Probe("release.partial_domain")
+			w.Probe("release.partial_domain." + ptyp)
 			if got && mstr(rr, "error") == "" {
-				viol("partial", "duplicate-route-accepted", "http proxy with a domain already registered by another proxy was accepted")
+				viol("partial", "duplicate-route-accepted", "%s proxy with a route already registered by another proxy was accepted", ptyp)
 			} else {
-				rr, got := cur.register(M{"proxy_name": "pp", "proxy_type": "http", "custom_domains": []string{"p1.example.test"}})
+				who := cur
+				if w.KnobBool("partial.first_route_taken_by_other", 40) {
+					who = o
+				}
+				rr, got := who.register(mkp("p1only", []string{"p1.example.test"}, ""))
 				if !got || mstr(rr, "error") != "" {
-					viol("partial", "first-domain-not-released", "registration [p1,p2] failed on p2; registering p1 alone afterwards was refused: %v", rr)
+					viol("partial", "first-domain-not-released", "%s registration [p1,p2] failed on p2; registering p1 alone afterwards was refused: %v", ptyp, rr)
+				} else {
+					who.CloseProxy("p1only")
+					syncCtl(who)
+					o.CloseProxy("blocker")
+					syncCtl(o)
+					rr, got := cur.register(full)
+					if !got || mstr(rr, "error") != "" {
+						viol("partial", "registration-refused-after-conflict-gone", "%s registration [p1,p2] failed on p2; after the conflicting proxy was closed the identical registration was refused: %v", ptyp, rr)
+					} else {
+						cur.CloseProxy("pp")
+						syncCtl(cur)
+					}
 				}
 			}
 		}
